@@ -28,26 +28,27 @@ var c06Prefix = "C06."
 
 // c06Roles: the constructs of events/queue resolved by role.
 type c06Roles struct {
-	p       *Prog
-	rel     string
-	pkg     string
-	procT   string // pkgpath.Processor
-	lockID  string
-	wgID    string
-	queue   FieldID
-	queueT  string
-	tokenCh string // chanIdent of the running-token channel
-	stopCh  string
-	resetCh string
-	stopped FieldID
-	execFn  FieldID
-	ops     map[*ssa.Function]string // queue methods: peek | pop | insert | remove | update
-	enq     *ssa.Function
-	deq     *ssa.Function
-	closeFn *ssa.Function
-	t       *evFrames
-	loops   []*evFrame // goroutine bodies that run the loop
-	names   map[string]string
+	p        *Prog
+	rel      string
+	pkg      string
+	procT    string // pkgpath.Processor
+	lockID   string
+	wgID     string
+	queue    FieldID
+	queueT   string
+	tokenCh  string // chanIdent of the running-token channel
+	stopCh   string
+	resetCh  string
+	stopped  FieldID
+	execFn   FieldID
+	ops      map[*ssa.Function]string // queue methods: peek | pop | insert | remove | update
+	enq      *ssa.Function
+	deq      *ssa.Function
+	closeFn  *ssa.Function
+	t        *evFrames
+	loops    []*evFrame // goroutine bodies that run the loop
+	loopSnap map[*evFrame]*EvSnapshot
+	names    map[string]string
 }
 
 var c06RolesCache = map[*Prog]*c06Roles{}
@@ -64,13 +65,24 @@ func c06Resolve(c *Ctx) *c06Roles {
 		return v
 	}
 	p := c.P
-	ro := &c06Roles{p: p, rel: "events/queue", ops: map[*ssa.Function]string{}}
+	ro := &c06Roles{p: p, rel: "events/queue", ops: map[*ssa.Function]string{}, loopSnap: map[*evFrame]*EvSnapshot{}}
 	ro.pkg = p.ModPath + "/" + ro.rel
 	named := p.Named(ro.rel, "Processor")
 	ro.procT = ro.pkg + ".Processor"
 	st := structOf(named)
 	if st == nil {
 		undecided("queue.Processor is not a struct")
+	}
+	// the queue type: the struct type of the package whose methods drive container/heap
+	isHeapCall := func(ci ssa.CallInstruction) bool {
+		obj := calleeObj(ci)
+		return obj != nil && obj.Pkg() != nil && obj.Pkg().Path() == "container/heap"
+	}
+	usesHeap := map[string]bool{}
+	for _, fn := range p.FuncsOfPkg(ro.rel) {
+		if fn.Signature.Recv() != nil && structOf(fn.Signature.Recv().Type()) != nil && evReachesCall(p, fn, isHeapCall) {
+			usesHeap[namedKey(fn.Signature.Recv().Type())] = true
+		}
 	}
 	var chans []string
 	one := func(cur *string, name, what string) {
@@ -80,41 +92,51 @@ func c06Resolve(c *Ctx) *c06Roles {
 		*cur = name
 	}
 	var lock, wg, stopped, execFn, queueF string
-	for i := 0; i < st.NumFields(); i++ {
-		f := st.Field(i)
-		switch nk := namedKey(f.Type()); {
+	var funcFields []FieldID
+	// fields of Processor and of the sub-structs it groups its state into
+	for _, f := range evFieldsDeep(ro.pkg, named, func(nk string) bool { return usesHeap[nk] }) {
+		id := f.ID.Type + "." + f.ID.Field
+		switch nk := namedKey(f.Type); {
 		case nk == "sync.Mutex" || nk == "sync.RWMutex":
-			one(&lock, f.Name(), "mutex")
+			one(&lock, id, "mutex")
 		case nk == "sync.WaitGroup":
-			one(&wg, f.Name(), "WaitGroup")
+			one(&wg, id, "WaitGroup")
 		case nk == "sync/atomic.Bool":
-			one(&stopped, f.Name(), "atomic.Bool")
-		case strings.HasPrefix(nk, ro.pkg+"."):
-			if _, isPtr := f.Type().Underlying().(*types.Pointer); !isPtr || true {
-				if structOf(f.Type()) != nil {
-					one(&queueF, f.Name(), "queue")
-					ro.queueT = nk
-				}
-			}
+			one(&stopped, id, "atomic.Bool")
+		case usesHeap[nk]:
+			one(&queueF, id, "queue")
+			ro.queueT = nk
 		default:
-			switch f.Type().Underlying().(type) {
+			switch f.Type.Underlying().(type) {
 			case *types.Chan:
-				chans = append(chans, f.Name())
+				chans = append(chans, id)
 			case *types.Signature:
-				one(&execFn, f.Name(), "callback")
+				funcFields = append(funcFields, f.ID)
 			}
 		}
+	}
+	// the callback: the func-typed field that is handed in from outside (stored from a
+	// parameter); other func-typed fields are seams assigned once to a known function
+	for _, id := range funcFields {
+		if _, seam := ro.seamField(id); seam && len(funcFields) > 1 {
+			continue
+		}
+		one(&execFn, id.Type+"."+id.Field, "callback")
 	}
 	for what, v := range map[string]string{"mutex": lock, "WaitGroup": wg, "atomic.Bool flag": stopped, "callback": execFn, "queue": queueF} {
 		if v == "" {
 			undecided("queue.Processor has no %s field: role not resolvable", what)
 		}
 	}
-	ro.lockID = ro.procT + "." + lock
-	ro.wgID = ro.procT + "." + wg
-	ro.stopped = FieldID{ro.procT, stopped}
-	ro.execFn = FieldID{ro.procT, execFn}
-	ro.queue = FieldID{ro.procT, queueF}
+	split := func(id string) FieldID {
+		i := strings.LastIndex(id, ".")
+		return FieldID{id[:i], id[i+1:]}
+	}
+	ro.lockID = lock
+	ro.wgID = wg
+	ro.stopped = split(stopped)
+	ro.execFn = split(execFn)
+	ro.queue = split(queueF)
 	ro.enq = p.Func(ro.rel, "Processor.Enqueue")
 	ro.deq = p.Func(ro.rel, "Processor.Dequeue")
 	ro.closeFn = p.Func(ro.rel, "Processor.Close")
@@ -153,10 +175,12 @@ func c06Resolve(c *Ctx) *c06Roles {
 	}
 
 	// channels: stop = the one that is closed; token = the one Close sends on; reset = the remaining one
+	isChan := map[string]bool{}
+	for _, c := range chans {
+		isChan["field:"+c] = true
+	}
 	chField := func(v ssa.Value) string {
-		id := chanIdent(v)
-		pre := "field:" + ro.procT + "."
-		if strings.HasPrefix(id, pre) {
+		if id := chanIdent(v); isChan[id] {
 			return id
 		}
 		return ""
@@ -193,7 +217,7 @@ func c06Resolve(c *Ctx) *c06Roles {
 		})
 	}
 	for _, name := range chans {
-		id := "field:" + ro.procT + "." + name
+		id := "field:" + name
 		switch {
 		case closed[id] && !sentInClose[id]:
 			one(&ro.stopCh, id, "closed (stop) channel")
@@ -206,17 +230,33 @@ func c06Resolve(c *Ctx) *c06Roles {
 	if ro.stopCh == "" || ro.tokenCh == "" || ro.resetCh == "" {
 		undecided("the stop / running-token / reset channels of queue.Processor are not resolvable by role (stop=%q token=%q reset=%q)", ro.stopCh, ro.tokenCh, ro.resetCh)
 	}
-	ro.t = newEvFrames(p, func(fn *ssa.Function) bool {
+	if ro.t == nil {
+		ro.t = ro.newFrames()
+	}
+	c06RolesCache[p] = ro
+	return ro
+}
+
+// seamField: the func-typed field is assigned exactly once, to a function of
+// the package (a seam through which code is invoked), as opposed to a callback
+// supplied by the user.
+func (ro *c06Roles) seamField(id FieldID) (evVal, bool) {
+	if ro.t == nil {
+		ro.t = ro.newFrames()
+	}
+	return ro.t.fieldFunc(id)
+}
+
+func (ro *c06Roles) newFrames() *evFrames {
+	return newEvFrames(ro.p, func(fn *ssa.Function) bool {
 		if fn.Pkg == nil || fn.Pkg.Pkg.Path() != ro.pkg {
 			return false
 		}
-		if fn.Signature.Recv() != nil && namedKey(fn.Signature.Recv().Type()) == ro.queueT {
+		if fn.Signature.Recv() != nil && ro.queueT != "" && namedKey(fn.Signature.Recv().Type()) == ro.queueT {
 			return false
 		}
 		return true
 	})
-	c06RolesCache[p] = ro
-	return ro
 }
 
 func (ro *c06Roles) op(ci ssa.CallInstruction) string {
@@ -333,7 +373,7 @@ func checkC06(c *Ctx) {
 			if fn.Parent() != nil || fn.Name() == "init" || fn.Signature.Recv() == nil || !(strings.HasPrefix(fn.Name(), "Good") || strings.HasPrefix(fn.Name(), "Bad")) {
 				continue
 			}
-			c06AtomicExitX(fp, fr, ft, []*evFrame{ft.Root(fn)}, fp.ModPath+".proc.mu", "field:"+fp.ModPath+".proc.running", isPeek, FuncName(fp, fn)+" atomic-exit", FuncName(fp, fn)+" token-once")
+			c06AtomicExitX(fp, fr, ft, []*evFrame{ft.Root(fn)}, nil, fp.ModPath+".proc.mu", "field:"+fp.ModPath+".proc.running", isPeek, FuncName(fp, fn)+" atomic-exit", FuncName(fp, fn)+" token-once")
 		}
 	})
 }
@@ -351,11 +391,11 @@ func c06AtomicExit(c *Ctx, ro *c06Roles) {
 	if len(loops) == 0 {
 		return
 	}
-	c06AtomicExitX(c.P, c.R, ro.t, loops, ro.lockID, ro.tokenCh, ro.isPeek, "events/queue.Processor loop empty-exit", "events/queue.Processor loop token-once")
+	c06AtomicExitX(c.P, c.R, ro.t, loops, ro.loopSnap, ro.lockID, ro.tokenCh, ro.isPeek, "events/queue.Processor loop empty-exit", "events/queue.Processor loop token-once")
 }
 
 // c06AtomicExitX runs the AtomicDecision typestate over the inlined paths of roots.
-func c06AtomicExitX(p *Prog, r *Report, t *evFrames, roots []*evFrame, lockID, tokenCh string, isPeek func(ssa.CallInstruction) bool, construct, construct2 string) {
+func c06AtomicExitX(p *Prog, r *Report, t *evFrames, roots []*evFrame, snaps map[*evFrame]*EvSnapshot, lockID, tokenCh string, isPeek func(ssa.CallInstruction) bool, construct, construct2 string) {
 	e := NewLockEngine(p) // only for lockOp (identity of lock operations)
 	x := NewEvExplorer[q2State](t)
 	release := func(s q2State) q2State {
@@ -377,7 +417,7 @@ func c06AtomicExitX(p *Prog, r *Report, t *evFrames, roots []*evFrame, lockID, t
 			if _, isGo := in.(*ssa.Go); isGo {
 				return s, true
 			}
-			if id, kind, ok := e.lockOp(v); ok && id == lockID {
+			if id, kind, ok := evLockOp(c, e, v); ok && id == lockID {
 				switch kind {
 				case opLock, opRLock:
 					s.held = true
@@ -427,7 +467,7 @@ func c06AtomicExitX(p *Prog, r *Report, t *evFrames, roots []*evFrame, lockID, t
 	nret := 0
 	sawEmptyExit := false
 	for _, root := range roots {
-		for _, ex := range x.Explore(root, q2State{}) {
+		for _, ex := range x.ExploreFrom(root, q2State{}, snaps[root]) {
 			nret++
 			s := ex.P.abs
 			switch s.ph {
@@ -495,7 +535,7 @@ func (ro *c06Roles) spawn(c *Ctx, report bool) {
 			}
 		case *ssa.Go:
 			body := staticCallee(v)
-			if body == nil || !evReachesCall(p, body, ro.isPeek) {
+			if body == nil || !evReachesCallVia(ro.t, p, body, ro.isPeek) {
 				return s, true
 			}
 			nGo++
@@ -504,6 +544,7 @@ func (ro *c06Roles) spawn(c *Ctx, report bool) {
 				// receiver, identical from whichever entry point the loop was started
 				seenFrame[gf.fn] = true
 				loops = append(loops, gf)
+				ro.loopSnap[gf] = cx.Snapshot()
 			}
 			if !s.added {
 				why = "the loop goroutine is started at " + p.Pos(v.Pos()) + " without a preceding wg.Add: Close may return while a callback is still running"
@@ -512,11 +553,11 @@ func (ro *c06Roles) spawn(c *Ctx, report bool) {
 				why = "a loop goroutine can be started at " + p.Pos(v.Pos()) + " without first taking the running token (two loops can pop the same queue / Close cannot wait for it)"
 			}
 		case ssa.CallInstruction:
-			if id, kind, ok := e.lockOp(v); ok && id == ro.lockID {
+			if id, kind, ok := evLockOp(cx, e, v); ok && id == ro.lockID {
 				s.held = kind == opLock || kind == opRLock
 				return s, true
 			}
-			if callIs(v, "sync", "WaitGroup", "Add") && wgIdent(v.Common().Args[0]) == ro.wgID {
+			if callIs(v, "sync", "WaitGroup", "Add") && evWgArg(cx, v) == ro.wgID {
 				s.added = true
 			}
 		}
@@ -551,14 +592,14 @@ func (ro *c06Roles) spawn(c *Ctx, report bool) {
 	xd := NewEvExplorer[dn](ro.t)
 	xd.Instr = func(cx *EvCtx[dn], in ssa.Instruction, s dn) (dn, bool) {
 		if ci, ok := in.(ssa.CallInstruction); ok {
-			if _, isGo := in.(*ssa.Go); !isGo && callIs(ci, "sync", "WaitGroup", "Done") && wgIdent(ci.Common().Args[0]) == ro.wgID {
+			if _, isGo := in.(*ssa.Go); !isGo && callIs(ci, "sync", "WaitGroup", "Done") && evWgArg(cx, ci) == ro.wgID {
 				s.done = true
 			}
 		}
 		return s, true
 	}
 	for _, lf := range ro.loops {
-		for _, ex := range xd.Explore(lf, dn{}) {
+		for _, ex := range xd.ExploreFrom(lf, dn{}, ro.loopSnap[lf]) {
 			if !ex.P.abs.done && why == "" {
 				why = "the loop goroutine can exit at " + p.Pos(instrPos(ex.Ret)) + " without wg.Done: Close waits forever"
 			}
@@ -598,8 +639,11 @@ func c06Close(c *Ctx, ro *c06Roles) {
 			}
 		case *ssa.Go:
 		case ssa.CallInstruction:
-			if callIs(v, "sync", "WaitGroup", "Wait") && wgIdent(v.Common().Args[0]) == ro.wgID {
+			if callIs(v, "sync", "WaitGroup", "Wait") && evWgArg(cx, v) == ro.wgID {
 				s.waited = true
+			}
+			if callIs(v, "sync", "Once", "Do") && s.won == 0 {
+				s.won = 1 // what runs inside once.Do runs at most once
 			}
 			if builtinName(v) == "close" && chanIdent(cx.Resolve(v.Common().Args[0]).V) == ro.stopCh {
 				s.closed = true
@@ -900,7 +944,7 @@ func c06LoopItems(c *Ctx, ro *c06Roles, q3, q5 bool) {
 		if _, isGo := in.(*ssa.Go); isGo {
 			return s, true
 		}
-		if id, kind, ok := e.lockOp(ci); ok && id == ro.lockID {
+		if id, kind, ok := evLockOp(cx, e, ci); ok && id == ro.lockID {
 			s.held = kind == opLock || kind == opRLock
 			return clearSec(s), true
 		}
@@ -1101,7 +1145,7 @@ func c06LoopItems(c *Ctx, ro *c06Roles, q3, q5 bool) {
 		return s, true
 	}
 	for _, lf := range loops {
-		x.Explore(lf, q35State{})
+		x.ExploreFrom(lf, q35State{}, ro.loopSnap[lf])
 	}
 	if x.Incomplete != "" {
 		r.Undecide("Q3/Q5: %s", x.Incomplete)
@@ -1204,7 +1248,7 @@ func c06Enqueue(c *Ctx, ro *c06Roles) {
 			}
 		case *ssa.Go:
 		case ssa.CallInstruction:
-			if id, kind, ok := e.lockOp(v); ok && id == ro.lockID {
+			if id, kind, ok := evLockOp(cx, e, v); ok && id == ro.lockID {
 				s.held = kind == opLock || kind == opRLock
 				return s, true
 			}
@@ -1454,10 +1498,10 @@ func c06Signals(c *Ctx, ro *c06Roles) {
 				return
 			}
 			fa, ok := st.Addr.(*ssa.FieldAddr)
-			if !ok || fieldIDOfAddr(fa).Type != ro.procT {
+			if !ok {
 				return
 			}
-			id := "field:" + ro.procT + "." + fieldIDOfAddr(fa).Field
+			id := "field:" + fieldIDOfAddr(fa).Type + "." + fieldIDOfAddr(fa).Field
 			capWant, tracked := want[id]
 			if !tracked {
 				return
@@ -1571,7 +1615,7 @@ func c06Signals(c *Ctx, ro *c06Roles) {
 		return s, true
 	}
 	for _, lf := range loops {
-		x.Explore(lf, q8State{})
+		x.ExploreFrom(lf, q8State{}, ro.loopSnap[lf])
 	}
 	if x.Incomplete != "" {
 		r.Undecide("Q8: %s", x.Incomplete)
